@@ -29,7 +29,10 @@ def version_tok(s):
         ok = 1
     except vol.Invalid:
         ok = 0
-    idx = _MODS.index(get_const(safe_is_version(s)).__name__)
+    try:
+        idx = _MODS.index(get_const(safe_is_version(s)).__name__)
+    except Exception:     # the library cannot even select constants for a version it accepted (finding D22):
+        idx = 0           # the oracle type has no "raises"; the C18 check judges this, not the core model
     return f"V {enc_str(s)} {ok} {idx}"
 
 
